@@ -107,7 +107,7 @@ def run(ctx):
             continue
         ctx.functions_analysed.add(b.name)
         calls = set()
-        for c in b.calls:
+        for c in prog.group_calls(b.root):          # the comparator and its closures (`keys.map(|..| a.cmp(b)).find(..)`)
             n = c.name or ''
             if re.search(r'<types::value::DataValue as std::cmp::Ord>::cmp$', n):
                 calls.add('DataValue::cmp')
